@@ -465,7 +465,8 @@ def repair_grouping(n: ast.AST, log: list | None = None) -> bool:
 def grouping_explains(n: ast.AST, rendered: str | None, rec, root: bool) -> bool:  # noqa: ANN001
     """DESIGN predicate for grouping ("equal after deleting parentheses"), made independent of ast.unparse's spelling:
     with the low-precedence operands replaced by names the subtree renders correctly; putting the operands' own texts back
-    *in parentheses* gives text that parses to the subtree, and putting them back *bare* gives exactly what was rendered."""
+    *in parentheses* gives text that parses to the subtree, and putting them back *bare* gives what was rendered (up to
+    parentheses)."""
     from _griffe.expressions import get_expression
 
     if rendered is None:
@@ -487,7 +488,10 @@ def grouping_explains(n: ast.AST, rendered: str | None, rec, root: bool) -> bool
             return False
         grouped = grouped.replace(name, "(" + child_text + ")")
         bare = bare.replace(name, child_text)
-    if bare != rendered:
+    # (compared modulo parentheses and blanks: below a subscript index the operand's own comprehension targets are rendered
+    # `for k, v in` instead of `for (k, v) in`, see C03-subscript-tuple-leak)
+    strip = str.maketrans("", "", "() ")
+    if bare.translate(strip) != rendered.translate(strip):
         return False
     target = n if root and isinstance(n, ast.expr) else wrap(n)
     try:
@@ -526,7 +530,7 @@ def repair_empty_tuple_index(n: ast.AST) -> bool:
 
 def _tuple_leak_root(n: ast.AST) -> bool:
     """Parenthesised tuples below a subscript index (not the index itself) that are reached without crossing another
-    tuple or subscript: `a[[(1, 2)]]`, `a[(1, 2):3]`, `a[b + (1, 2)]`.  Repair: replace them by a name."""
+    tuple or subscript: `a[[(1, 2)]]`, `a[(1, 2):3]`, `a[b + (1, 2)]`.  Repair: replace them by a stand-in call `__vfk()`."""
     changed = False
 
     def walk(x: ast.AST) -> None:
@@ -534,10 +538,14 @@ def _tuple_leak_root(n: ast.AST) -> bool:
         if isinstance(x, ast.Subscript):
             return
         for child, parent, field, index in list(slots(x)):
+            if isinstance(child, ast.Tuple) and isinstance(getattr(child, "ctx", None), ast.Store):
+                continue  # comprehension target: `for k, v in x` is as good as `for (k, v) in x`
             if isinstance(child, ast.Tuple):
                 # (the tuple itself renders correctly alone — it is smaller than N — so nothing is lost by replacing it; a list
-                # display would pass the flag on to tuples the replaced tuple used to shield)
-                put(parent, field, index, _ph())
+                # display would pass the flag on to tuples the replaced tuple used to shield.  The stand-in `__vfk()` ends
+                # with a parenthesis like the tuple did, so that a dict comprehension that only parses because its value ends
+                # with punctuation — `{k: ()for z in x}` — keeps doing so.)
+                put(parent, field, index, ast.Call(_ph(), [], []))
                 changed = True
             else:
                 walk(child)
